@@ -474,8 +474,8 @@ Section Proofs.
   Variable c0 : cstate.
   Hypothesis c0_sorted : sorted (c_items c0).
 
-  Notation step := (step m_eqb m_empty w_validate w_merge clock_at str_ltb idfun false prog).
-  Notation run := (run m_eqb m_empty w_validate w_merge clock_at str_ltb idfun false prog).
+  Notation step := (step m_eqb m_empty w_validate w_merge clock_at str_ltb idfun false false prog).
+  Notation run := (run m_eqb m_empty w_validate w_merge clock_at str_ltb idfun false false prog).
   Notation replay := (replay m_eqb m_empty w_validate w_merge clock_at str_ltb idfun prog).
   Notation wit_tid := (@wit_tid M).
   Notation wit_out := (@wit_out M).
@@ -575,6 +575,7 @@ Section Proofs.
     destruct (nth_error prog t) as [c|] eqn:P; [|subst s'; eapply inv_frame; eauto].
     destruct (nth_error (st_pcs s) t) as [p|] eqn:Q; [|subst s'; eapply inv_frame; eauto].
     destruct (trans c p (st_w s)) as [[[p' w'] eff]|] eqn:T; [|subst s'; eapply inv_frame; eauto].
+    destruct (gate_open _ _ _ _ _) eqn:G; [|subst s'; eapply inv_frame; eauto].
     destruct (i_local I _ P Q) as [Hwf Hwit].
     pose proof (@trans_lin _ _ _ _ _ _ (prog_ok _ P) Hwf T) as L.
     pose proof (@trans_world _ _ _ _ _ _ T) as W.
@@ -921,6 +922,7 @@ Section Proofs.
     destruct (nth_error prog t) as [c|] eqn:P; [|exact Hp].
     destruct (nth_error (st_pcs s) t) as [p|] eqn:Q; [|exact Hp].
     destruct (trans c p (st_w s)) as [[[p' w'] eff]|] eqn:T; [|exact Hp].
+    destruct (gate_open _ _ _ _ _) eqn:G; [|exact Hp].
     simpl. destruct (i_local I _ P Q) as [Hwf _].
     pose proof (@trans_lin _ _ _ _ _ _ (prog_ok _ P) Hwf T) as L.
     destruct (predicted c p), (predicted c p').
@@ -960,6 +962,7 @@ Section Proofs.
     destruct (nth_error prog t) as [c|]; [|exact H].
     destruct (nth_error (st_pcs s) t) as [p|]; [|exact H].
     destruct (trans c p (st_w s)) as [[[p' w'] eff]|]; [|exact H].
+    destruct (gate_open _ _ _ _ _) eqn:G; [|exact H].
     simpl. destruct (predicted c p), (predicted c p'); try exact H. apply in_or_app. left. exact H.
   Qed.
 
@@ -984,6 +987,7 @@ Section Proofs.
     destruct (nth_error prog t) as [c|] eqn:P; [|contradiction].
     destruct (nth_error (st_pcs s) t) as [p|] eqn:Q; [|contradiction].
     destruct (trans c p (st_w s)) as [[[p' w'] eff]|] eqn:T; [|contradiction].
+    destruct (gate_open _ _ _ _ _) eqn:G; [|contradiction].
     simpl in *. destruct (i_local I _ P Q) as [Hwf _].
     pose proof (@trans_lin _ _ _ _ _ _ (prog_ok _ P) Hwf T) as L.
     destruct (predicted c p) as [r0|], (predicted c p') as [r|].
